@@ -124,16 +124,19 @@ class GroupBy:
         for group_key, column, value in self._map(
             list(dict.fromkeys(col for _, col in aggregations))
         ):
+            column_values = column_value_map[group_key][column]
             if value is not None:
-                column_value_map[group_key][column].append(value)
+                column_values.append(value)
 
         # Applying aggregation functions
         for group, column_values in column_value_map.items():
             aggregated_data[group] = {}
             for func, col in aggregations:
-                aggregated_data[group][f"{func}({col})"] = AGGREGATORS[func](
-                    column_values.get(col, [])
-                )
+                values = column_values.get(col, [])
+                if not values and func != "COUNT":
+                    aggregated_data[group][f"{func}({col})"] = None
+                    continue
+                aggregated_data[group][f"{func}({col})"] = AGGREGATORS[func](values)
 
         result_set = []
         for group, values in aggregated_data.items():
